@@ -205,9 +205,6 @@ def run(ctx):
     flaky = sum(r["flaky"] for r in srows)
     if checked == 0:
         raise vlib.Inconclusive("nothing was compared")
-    if lost > checked // 200 or unknown > checked // 100:
-        samples = [r.get("lost_samples") for r in srows if r.get("lost_samples")][:3]
-        raise vlib.Inconclusive("observation channel unreliable: %d expected entries missing, %d unattributable entries of %d comparisons, e.g. %s" % (lost, unknown, checked, samples))
     n_unlisted = 0
     kinds = collections.Counter()
     for r in rows:
@@ -231,8 +228,6 @@ def run(ctx):
     verdict = trace_check(ctx, trows)
     tbad = [(x["l"], x["c"]) for x in verdict["bad"]]
     tlost = verdict["lost"]
-    if tlost > len(trows) // 100 + 1:
-        raise vlib.Inconclusive("trace: %d expected entries missing in %d lines" % (tlost, len(trows)))
     reproduced, tflaky = [], 0
     if tbad:
         # Reproduce: run the instances concerned once more, validate again; a
@@ -261,6 +256,28 @@ def run(ctx):
         ctx.disagreement(key, {"dir": "B", "code": c, "line": slim, "seed": ctx.seed, "tier": ctx.tier},
                          "trace line %d rejected by TraceIgnoreAnon (%s): %s" % (l, c, line.get("concrete", "statistics of instance %s" % line["inst"])))
 
+    # Binding demonstration for the trace spec: a recorded line whose reported
+    # address is corrupted (filler bits set although anonymisation is on) must
+    # be rejected.
+    demo_line = next((dict(r) for r in trows if r["t"] == "q" and r["rec"]["anon"] and r["api0"]), None)
+    binding = {"mutations": "13 code mutations, all caught: notes/C08.md"}
+    if demo_line is not None:
+        demo_line["api0addr"] = dict(demo_line["api0addr"], rest=1)
+        dv = trace_check(ctx, [demo_line])
+        if "anon:api0" not in {x["c"] for x in dv["bad"]}:
+            raise vlib.Inconclusive("TraceIgnoreAnon accepted a corrupted line (un-anonymised address)")
+        binding["corrupted_trace_line_rejected"] = True
+
+    # An entry that is present although it must not be is evidence on its own.
+    # "Nothing forbidden was seen" is only worth something if the observation
+    # channel works: entries the spec expects must have been seen.
+    if not ctx.violations:
+        if lost > checked // 200 or unknown > checked // 100:
+            samples = [r.get("lost_samples") for r in srows if r.get("lost_samples")][:3]
+            raise vlib.Inconclusive("observation channel unreliable: %d expected entries missing, %d unattributable entries of %d comparisons, e.g. %s" % (lost, unknown, checked, samples))
+        if tlost > len(trows) // 100 + 1:
+            raise vlib.Inconclusive("trace: %d expected entries missing in %d lines" % (tlost, len(trows)))
+
     # ---- evidence
     nontrivial = 0
     for s in sel:
@@ -288,7 +305,7 @@ def run(ctx):
         "scripts_failed_to_run": len(errors),
         "trace_lines": len(trows), "trace_lines_rejected_reproduced": len(reproduced), "trace_expected_missing": tlost,
         "verdicts_in_tables": verdict_hist, "disagreements_by_class": dict(kinds),
-        "design_level_demonstrations": demos,
+        "design_level_demonstrations": demos, "binding_demo": binding, "truncated_by_known_finding": 0,
         "exhaustive": len(sel) == len(scripts), "samples": samples,
     }
     return ctx.finish("model_checking", cov, assumptions=[
